@@ -20,7 +20,7 @@ type Mutation struct {
 var MutationKinds = []string{
 	"replace-expr", "rename-ident", "delete-stmt", "dup-stmt", "call-arity", "swap-args", "return-arity",
 	"change-op", "change-type", "define-assign", "wrap-conversion", "insert-snippet", "insert-jump",
-	"delete-decl", "dup-decl", "assign-to-expr", "nil-misuse",
+	"delete-decl", "dup-decl", "assign-to-expr", "nil-misuse", "drop-use", "insert-family",
 }
 
 type edit struct {
@@ -42,6 +42,7 @@ type mutator struct {
 	asgs  []*ast.AssignStmt
 	types []ast.Expr // type expressions
 	lhs   []ast.Expr // assignment targets
+	uses  []ast.Stmt // statements that only read variables: _ = x, _, _ = x, y
 }
 
 func (m *mutator) off(p token.Pos) int { return m.fset.Position(p).Offset }
@@ -88,6 +89,22 @@ func (m *mutator) collect() {
 		case *ast.AssignStmt:
 			m.asgs = append(m.asgs, x)
 			m.lhs = append(m.lhs, x.Lhs...)
+			if x.Tok == token.ASSIGN {
+				blank := true
+				for _, l := range x.Lhs {
+					if id, ok := l.(*ast.Ident); !ok || id.Name != "_" {
+						blank = false
+					}
+				}
+				for _, r := range x.Rhs {
+					if _, ok := r.(*ast.Ident); !ok {
+						blank = false
+					}
+				}
+				if blank {
+					m.uses = append(m.uses, x)
+				}
+			}
 		case *ast.IncDecStmt:
 			m.lhs = append(m.lhs, x.X)
 		case *ast.ValueSpec:
@@ -234,6 +251,23 @@ func (m *mutator) mutate(kind string) (Mutation, bool) {
 			at := m.off(s.Pos())
 			return Mutation{Desc: fmt.Sprintf("%q inserted before %s", j, m.pos(s)), Src: m.apply(edit{at, at, j + "\n"})}, true
 		}
+	case "drop-use":
+		// remove a statement whose only purpose is to read variables
+		if len(m.uses) == 0 {
+			return Mutation{}, false
+		}
+		u := m.uses[r.Intn(len(m.uses))]
+		return Mutation{Desc: fmt.Sprintf("use %q at %s removed", trunc(m.text(u)), m.pos(u)), Src: m.replace(u, "")}, true
+	case "insert-family":
+		// a member of one of the generated snippet families (shadowed types, redeclarations, constant groups)
+		if len(m.lists) == 0 || len(Snippets) <= HandWritten {
+			return Mutation{}, false
+		}
+		l := m.lists[r.Intn(len(m.lists))]
+		st := l[r.Intn(len(l))]
+		sn := Snippets[HandWritten+r.Intn(len(Snippets)-HandWritten)]
+		at := m.off(st.Pos())
+		return Mutation{Desc: fmt.Sprintf("snippet %q inserted before %s", trunc(sn), m.pos(st)), Src: m.apply(edit{at, at, sn + "\n"})}, true
 	case "call-arity":
 		if len(m.calls) == 0 {
 			return Mutation{}, false
